@@ -385,7 +385,24 @@ def check_lex_updates(rep, prog):
             rep.undecided('R12c', fn.body, fn, 'update sites of lex_dijkstra', 'unexpected signature')
             continue
         src, distp, predp = pids[2], pids[3], pids[4]
-        puts = [c for c in fn.walk() if c.k == 'CallExpr' and c.callee and c.callee['g'] == 'boost::put' and len(c.args()) == 3]
+        class _Store(object):
+            # put(map, key, value)  /  map[key] = value
+            def __init__(self, node, m, k_, v_):
+                self.node, self.m, self.k_, self.v_ = node, m, k_, v_
+                self.line = node.line
+
+            def args(self):
+                return [self.m, self.k_, self.v_]
+
+            def enclosing(self, *a_):
+                return self.node.enclosing(*a_)
+        puts = [_Store(c, *c.args()) for c in fn.walk() if c.k == 'CallExpr' and c.callee and c.callee['g'] == 'boost::put' and len(c.args()) == 3]
+        for c in fn.walk():
+            if c.k == 'CXXOperatorCallExpr' and c.op == '=' and len(c.c) == 3:
+                l_ = c.c[1].strip_all()
+                if l_.k == 'CXXOperatorCallExpr' and l_.op == '[]' and len(l_.c) == 3 and ex.var_of(l_.c[1]) is not None and \
+                        'property_map' in ((prog.base_type(l_.c[1].strip_all().j.get('t')) or {}).get('canon') or ''):
+                    puts.append(_Store(c, l_.c[1], l_.c[2], c.c[2]))
         lexmap = None
         for c in puts:
             mv = ex.var_of(c.args()[0])
@@ -398,7 +415,7 @@ def check_lex_updates(rep, prog):
         for c in puts:
             if c.enclosing('ForStmt', 'CXXForRangeStmt') is None:
                 continue
-            p_ = cfg.pos_of(c)
+            p_ = cfg.pos_of(c.node)
             if p_:
                 blocks.setdefault(p_[0], []).append(c)
         if not blocks:
@@ -459,9 +476,9 @@ def check_lex_updates(rep, prog):
                             if ev is not None and ev not in uses:
                                 probs.append('the label is not the combination with the edge stored as predecessor')
             if probs:
-                rep.violation('R12c', group[0], fn, what, '; '.join(probs), key='R12c|%s|site-%d' % (fn.g, sorted(blocks).index(b)))
+                rep.violation('R12c', min(group, key=lambda g_: g_.line).node, fn, what, '; '.join(probs), key='R12c|%s|site-%d' % (fn.g, sorted(blocks).index(b)))
             else:
-                rep.ok('R12c', group[0], fn, what, 'put(lex, w, c); put(dist, w, c.distance); put(pred, w, (true, e))')
+                rep.ok('R12c', min(group, key=lambda g_: g_.line).node, fn, what, 'put(lex, w, c); put(dist, w, c.distance); put(pred, w, (true, e))')
         # source initialisation
         whats = 'the source starts with the zero label and no predecessor'
         init = [c for c in puts if c.enclosing('ForStmt', 'CXXForRangeStmt') is None and c.enclosing('WhileStmt') is None and ex.var_of(c.args()[1]) == src]
@@ -489,9 +506,9 @@ def check_lex_updates(rep, prog):
                 if a1.cv != 0:
                     probs.append('the source edge count is `%s`, not zero' % a1.text(20))
         if probs:
-            rep.violation('R12c', (pm or lm or [fn.body])[0], fn, whats, '; '.join(probs), key='R12c|%s|source' % fn.g)
+            rep.violation('R12c', getattr((pm or lm or [fn.body])[0], 'node', fn.body), fn, whats, '; '.join(probs), key='R12c|%s|source' % fn.g)
         else:
-            rep.ok('R12c', (lm or pm)[0], fn, whats, 'LexDistance(0, 0, {s}); pred = (false, -)')
+            rep.ok('R12c', (lm or pm)[0].node, fn, whats, 'LexDistance(0, 0, {s}); pred = (false, -)')
     return n
 
 
@@ -698,6 +715,11 @@ def check_tree_construction(rep, prog):
                 continue
             pc = guards_formula(cfg, nw, atoms_for(vv))
             atoms = ex.f_atoms(pc)
+            # the vertex argument is the source itself (a member / parameter named *source*, not the loop vertex):
+            # the node is the root by construction
+            v0 = ct.c[0].strip_all()
+            src_direct = any(x.k in ('MemberExpr', 'DeclRefExpr') and x.decl and 'source' in (x.decl.get('name') or '').lower()
+                             for x in [v0] + list(v0.walk())) and nw.enclosing('ForStmt', 'WhileStmt', 'CXXForRangeStmt') is None
             others = [a_ for a_ in atoms if a_ not in ('is_source', 'has_pred')]
             inner = [a_ for a_ in others if isinstance(a_, tuple) and a_[0] == 'opaque' and nw.enclosing('ForStmt', 'WhileStmt') is not None and
                      nw.enclosing('ForStmt', 'WhileStmt').body.is_ancestor_of(fn.nodes[a_[1]])]
@@ -705,7 +727,7 @@ def check_tree_construction(rep, prog):
                 und.append('node construction depends on `%s`' % fn.nodes[inner[0][1]].text(30))
                 continue
             with_pred = len(ct.c) >= 3
-            for (is_src, has_pred) in ((True, False), (False, True), (False, False)):
+            for (is_src, has_pred) in (((True, False),) if src_direct else ((True, False), (False, True), (False, False))):
                 envv = {a_: True for a_ in others}
                 envv.update({'is_source': is_src, 'has_pred': has_pred})
                 envv = {k: v for k, v in envv.items() if k in atoms}
@@ -724,7 +746,13 @@ def check_tree_construction(rep, prog):
                 wv = vertex_of_idx(w_.c[2]) if (w_.k == 'CXXOperatorCallExpr' and w_.op == '[]' and len(w_.c) == 3) else None
                 if w_.k == 'CallExpr' and w_.callee and w_.callee['g'] == 'boost::get' and len(w_.args()) == 2:
                     wv = ex.var_of(w_.args()[1])
-                if wv != vv:
+                zero_w = (w_.k in ('CXXScalarValueInitExpr', 'CXXTemporaryObjectExpr') and not w_.c) or \
+                    (w_.k == 'IntegerLiteral' and w_.cv == 0) or (w_.k == 'FloatingLiteral' and float(w_.value) == 0.0)
+                if src_direct and zero_w:
+                    pass        # the distance of the source is the zero of the weight type
+                elif wv != vv and wv is None and src_direct:
+                    und.append('root weight `%s`' % w_.text(30))
+                elif wv != vv:
                     probs.append('the node weight `%s` is not the distance of the node\'s own vertex' % w_.text(30))
             if with_pred:
                 e_ = ct.c[2]
